@@ -237,14 +237,40 @@ def race(text, timeout_s, confirm=False, tmpdir=None):
         shutil.rmtree(d, ignore_errors=True)
 
 
+_FORK_OBS = None
+
+
+def _text_of_index(i):
+    ob = _FORK_OBS[i]
+    return smt2_of(ob.pc, ob.goal)
+
+
+def smt2_texts(obligations):
+    """SMT-LIB text of every obligation.  Simplifying and printing is single-threaded z3 API work
+    (about 0.1-0.3 s per large query), so for many obligations it is spread over forked workers: the
+    children inherit the terms, only the texts come back."""
+    global _FORK_OBS
+    n = len(obligations)
+    if n < 24 or os.environ.get('PYVC_NO_FORK_TEXTS'):
+        return [smt2_of(ob.pc, ob.goal) for ob in obligations]
+    import multiprocessing
+    _FORK_OBS = obligations
+    try:
+        ctx = multiprocessing.get_context('fork')
+        with ctx.Pool(min(12, max(2, (os.cpu_count() or 4) - 2))) as pool:
+            return pool.map(_text_of_index, range(n), chunksize=max(1, n // 64))
+    except Exception:
+        return [smt2_of(ob.pc, ob.goal) for ob in obligations]
+    finally:
+        _FORK_OBS = None
+
+
 def discharge_all(obligations, timeout_s=20, confirm=False, workers=None):
     """obligations: list of symex.Obligation -> list of result dicts (same order)"""
     workers = workers or min(16, (os.cpu_count() or 4))
     # three solver processes per query: keep the machine busy but not oversubscribed
     workers = max(2, workers // 2)
-    texts = []
-    for ob in obligations:
-        texts.append(smt2_of(ob.pc, ob.goal))
+    texts = smt2_texts(obligations)
     with ThreadPoolExecutor(workers) as pool:
         results = list(pool.map(lambda t: race(t, timeout_s, confirm), texts))
     for ob, r, t in zip(obligations, results, texts):
